@@ -27,6 +27,9 @@ type Clause struct {
 	Name string // generated function name in the overlay (requires/ensures)
 	ID   string // known-finding id
 	IsLoop bool
+	ArgText string // "(args)" of a use clause
+	Quantified bool
+	DecName string // generated decrease-check function for a self-use
 }
 
 type Block struct {
@@ -111,7 +114,7 @@ func ParseContractFile(path, pkgPath string) ([]*Block, error) {
 		if ct == "" {
 			continue
 		}
-		if strings.HasPrefix(ct, "--") || strings.HasPrefix(ct, "import ") || strings.HasPrefix(ct, "heap ") { // comments and directives
+		if strings.HasPrefix(ct, "--") || strings.HasPrefix(ct, "import ") || strings.HasPrefix(ct, "heap ") || strings.HasPrefix(ct, "abstract type ") { // comments and directives
 			continue
 		}
 		if kw := startsWithKW(ct, blockKW); kw != "" && !strings.HasPrefix(c, " ") && !strings.HasPrefix(c, "\t") {
@@ -150,6 +153,10 @@ func ParseContractFile(path, pkgPath string) ([]*Block, error) {
 			case "assume func":
 				cur.Kind = "assume"
 				cur.Header = rest
+				if m := regexp.MustCompile(`^([a-z][A-Za-z0-9_]*)\.([A-Za-z_][A-Za-z0-9_]*\(.*)$`).FindStringSubmatch(rest); m != nil {
+					cur.RecvPkg = m[1]
+					cur.Header = m[2]
+				}
 			case "lemma":
 				cur.Kind = "lemma"
 				cur.Header = rest
@@ -242,6 +249,8 @@ func ParseContractFile(path, pkgPath string) ([]*Block, error) {
 					return nil, fmt.Errorf("%s:%d: use clause wants lemmaName(args)", b.File, c.Line)
 				}
 				c.ID = strings.TrimSpace(txt[:par])
+				c.ArgText = txt[par:]
+				c.Quantified = pre != ""
 				g, err := RewriteSpecExpr(pre + "lemma_" + c.ID + "__holds" + txt[par:])
 				if err != nil {
 					return nil, fmt.Errorf("%s:%d: %v", b.File, c.Line, err)
@@ -576,6 +585,9 @@ func sameEntries[K comparable, V comparable](a, b map[K]V) bool {
 	return true
 }
 
+// sameFunc: the two function values are the same function (verifier only).
+func sameFunc[T any](a, b T) bool { return true }
+
 // cancelled(): the ghost flag "the search has been told to stop" at this point (verifier only).
 func cancelled() bool { return false }
 
@@ -743,6 +755,13 @@ func GenOverlay(pkgName string, blocks []*Block, extraImports []string) string {
 					c.Name = fmt.Sprintf("%suse%d", prefix, nuse)
 					nuse++
 					fmt.Fprintf(&sb, "\nfunc %s %s(%s) bool {\n\treturn %s\n}\n", recv, c.Name, params, c.Go)
+					if b.Kind == "lemma" && c.ID == b.Name && !c.Quantified {
+						// induction: the instance must be smaller in the declared measure
+						c.DecName = c.Name + "_dec"
+						pn := strings.Join(b.ParamNames(), ", ")
+						fmt.Fprintf(&sb, "\nfunc %s(%s) bool {\n\treturn !lemma_%s__reqall%s || (0 <= lemma_%s__dec%s && lemma_%s__dec%s < lemma_%s__dec(%s))\n}\n",
+							c.DecName, params, b.Name, c.ArgText, b.Name, c.ArgText, b.Name, c.ArgText, b.Name, pn)
+					}
 				case "known":
 					c.Name = fmt.Sprintf("%sknown%d", prefix, nkn)
 					nkn++
@@ -796,6 +815,12 @@ func GenOverlay(pkgName string, blocks []*Block, extraImports []string) string {
 					pre = []string{"true"}
 				}
 				fmt.Fprintf(&sb, "\nfunc lemma_%s__holds(%s) bool {\n\treturn !(%s) || (%s)\n}\n", b.Name, params, strings.Join(pre, " && "), strings.Join(post, " && "))
+				fmt.Fprintf(&sb, "\nfunc lemma_%s__reqall(%s) bool {\n\treturn %s\n}\n", b.Name, params, strings.Join(pre, " && "))
+				for _, c := range b.Clauses {
+					if c.Kind == "decreases" {
+						fmt.Fprintf(&sb, "\nfunc lemma_%s__dec(%s) int {\n\treturn int(%s)\n}\n", b.Name, params, c.Go)
+					}
+				}
 			}
 		}
 	}
